@@ -14,6 +14,7 @@
 #include <string.h>
 
 #include <atomic>
+#include <functional>
 #include <map>
 #include <memory>
 #include <mutex>
@@ -47,7 +48,6 @@ struct OpScope {
   ~OpScope() { W->inflight--; }
 };
 
-std::string g_desc;  // rebuilt per case, flushed with dsched::describe
 void descf(const char* fmt, ...) __attribute__((format(printf, 1, 2)));
 void descf(const char* fmt, ...) {
   char buf[256];
@@ -55,8 +55,50 @@ void descf(const char* fmt, ...) {
   va_start(ap, fmt);
   vsnprintf(buf, sizeof buf, fmt, ap);
   va_end(ap);
-  g_desc += buf;
+  dsched::describe("%s", buf);
 }
+
+// Every thread of a case is created up-front and parked on a gate: the engine's pthread_join looks a
+// thread up by pthread_t, and glibc reuses a pthread_t once a thread was joined, so no thread may be
+// created after a join. start() = unlock the gate (a happens-before edge like thread creation).
+struct Pool {
+  struct Slot {
+    std::mutex gate;
+    std::function<void()> body;
+    std::thread th;
+    bool started = false, joined = false;
+  };
+  std::vector<std::unique_ptr<Slot>> s;
+  explicit Pool(int n) {
+    for (int i = 0; i < n; i++) {
+      s.emplace_back(new Slot);
+      Slot* p = s.back().get();
+      p->gate.lock();
+      p->th = std::thread([p] {
+        p->gate.lock();
+        p->gate.unlock();
+        if (p->body) p->body();
+      });
+    }
+  }
+  void start(int i, std::function<void()> f) {
+    Slot* p = s[(size_t)i].get();
+    p->body = std::move(f);
+    p->started = true;
+    p->gate.unlock();
+  }
+  void join(int i) {
+    Slot* p = s[(size_t)i].get();
+    if (!p->started) start(i, nullptr);
+    if (!p->joined) {
+      p->th.join();
+      p->joined = true;
+    }
+  }
+  ~Pool() {
+    for (size_t i = 0; i < s.size(); i++) join((int)i);
+  }
+};
 
 ////////////////////////////////////////////////////////////////////////////////
 // scenario A: IdAllocator<T>
@@ -200,36 +242,51 @@ void run_allocator(Chooser& c, const char* tname) {
   W->overlapped = false;
   if (base >= 126) dsched::label("alloc_block_boundary");
 
+  struct PhasePlan {
+    std::vector<std::vector<AOp>> plans;
+    std::vector<int> give;
+  };
+  std::vector<PhasePlan> phases((size_t)nphase);
+  int total_threads = 0;
   for (int ph = 0; ph < nphase; ph++) {
     int nthreads = c.range(2, 4);
-    std::vector<std::vector<AOp>> plans((size_t)nthreads);
-    std::vector<std::vector<VV>> held((size_t)nthreads);
+    total_threads += nthreads;
+    phases[(size_t)ph].plans.resize((size_t)nthreads);
     descf(" | phase%d:", ph);
     for (int t = 0; t < nthreads; t++) {
       int give = c.range(0, 2);
-      for (int g = 0; g < give && !pool.empty(); g++) {
-        VV id = pool.back();
-        pool.pop_back();
-        A.owner[id.value] = t + 1;
-        held[(size_t)t].push_back(id);
-      }
+      phases[(size_t)ph].give.push_back(give);
       int nops = c.range(1, 6);
-      descf(" T%d(h%zu)[", t + 1, held[(size_t)t].size());
+      descf(" T%d(h%d)[", t + 1, give);
       for (int i = 0; i < nops; i++) {
         AOp op;
         op.alloc = !c.chance(9, 20);
         op.arg = c.below(8);
         op.value_only = c.chance(1, 3);
-        plans[(size_t)t].push_back(op);
+        phases[(size_t)ph].plans[(size_t)t].push_back(op);
         descf("%s", op.alloc ? "A" : (op.value_only ? "f" : "F"));
         if (!op.alloc) descf("%u", op.arg);
       }
       descf("]");
     }
-    // ownership of the handed-over ids moves to the threads through thread creation
-    std::vector<std::thread> ths;
+  }
+  Pool threads(total_threads);
+  int next_thread = 0;
+  for (int ph = 0; ph < nphase; ph++) {
+    auto& plans = phases[(size_t)ph].plans;
+    int nthreads = (int)plans.size();
+    std::vector<std::vector<VV>> held((size_t)nthreads);
+    for (int t = 0; t < nthreads; t++)
+      for (int g = 0; g < phases[(size_t)ph].give[(size_t)t] && !pool.empty(); g++) {
+        VV id = pool.back();
+        pool.pop_back();
+        A.owner[id.value] = t + 1;
+        held[(size_t)t].push_back(id);
+      }
+    // ownership of the handed-over ids moves to the threads through the start gate
+    int first = next_thread;
     for (int t = 0; t < nthreads; t++) {
-      ths.emplace_back([&, t] {
+      threads.start(next_thread++, [&, t] {
         int me = t + 1;
         auto& mine = held[(size_t)t];
         // re-stamp the resources this thread was given (it is their owner now)
@@ -252,7 +309,7 @@ void run_allocator(Chooser& c, const char* tname) {
         }
       });
     }
-    for (auto& th : ths) th.join();
+    for (int t = 0; t < nthreads; t++) threads.join(first + t);
     // back to thread 0
     for (int t = 0; t < nthreads; t++)
       for (auto& id : held[(size_t)t]) {
@@ -300,8 +357,8 @@ void run_thread_ids(Chooser& c, const char* name) {
   const uint16_t end0 = Impl::template end<Tag>();
 
   struct Th {
-    std::thread th;
-    std::mutex gate;
+    int idx = 0;
+    std::mutex gate;  // exit gate: the thread stays alive until thread 0 opens it
     bool registered = false, released = false, joined = false;
     uint32_t value = 0;
   };
@@ -312,12 +369,32 @@ void run_thread_ids(Chooser& c, const char* name) {
   bool birth_overlapped_exit = false;
   int exiting = 0;
 
+  // the action list depends on the chooser only: decode it first, then create all threads parked
+  struct Act { int kind; uint32_t arg; };
+  std::vector<Act> acts;
+  int total_spawns = 0;
+  {
+    int nact = c.range(2, 10);
+    int sim_alive = 0;
+    for (int i = 0; i < nact; i++) {
+      int kind = (int)c.below(4);  // 0,1 birth; 2 release+join; 3 release only (the exit overlaps later births)
+      uint32_t arg = c.below(16);
+      if ((kind <= 1 && (sim_alive >= 4 || total_spawns >= MAXTH)) || (kind >= 2 && sim_alive == 0)) kind = sim_alive == 0 ? 0 : 2;
+      if (kind <= 1 && total_spawns >= MAXTH) break;
+      if (kind <= 1) { total_spawns++; sim_alive++; }
+      else if (kind == 2) sim_alive--;
+      acts.push_back(Act{kind, arg});
+    }
+  }
+  Pool pool(total_spawns);
+
   auto spawn = [&] {
     int idx = (int)ths.size();
     ths.emplace_back(new Th);
     Th* me = ths.back().get();
+    me->idx = idx;
     me->gate.lock();
-    me->th = std::thread([&, me, idx] {
+    pool.start(idx, [&, me, idx] {
       if (exiting > 0) birth_overlapped_exit = true;
       VersionedValue<uint16_t> a, b;
       {
@@ -349,7 +426,7 @@ void run_thread_ids(Chooser& c, const char* name) {
   };
   auto release_join = [&](Th* t) {
     if (!t->released) { t->released = true; t->gate.unlock(); }
-    if (!t->joined) { t->th.join(); t->joined = true; exiting--; }
+    if (!t->joined) { pool.join(t->idx); t->joined = true; exiting--; }
   };
   auto alive = [&] {
     std::vector<Th*> v;
@@ -373,29 +450,24 @@ void run_thread_ids(Chooser& c, const char* name) {
     return true;
   };
 
-  int nact = c.range(2, 10);
   descf("%s:", name);
-  for (int i = 0; i < nact; i++) {
+  for (const Act& act : acts) {
     std::vector<Th*> al = alive();
-    int kind = (int)c.below(4);  // 0,1 spawn; 2 release+join; 3 release only (exit overlaps later births)
-    if ((kind <= 1 && (al.size() >= 4 || ths.size() >= MAXTH)) || (kind >= 2 && al.empty())) kind = al.empty() ? 0 : 2;
-    if (kind <= 1 && ths.size() >= MAXTH) break;
+    int kind = act.kind;
+    if (kind >= 2 && al.empty()) continue;
     if (kind <= 1) {
       descf(" S%zu", ths.size());
       spawn();
       dsched::label("tid_spawn");
     } else {
-      Th* t = al[c.below((uint32_t)al.size())];
-      size_t idx = 0;
-      for (size_t k = 0; k < ths.size(); k++)
-        if (ths[k].get() == t) idx = k;
+      Th* t = al[act.arg % al.size()];
       if (kind == 3 && !t->released) {
-        descf(" R%zu", idx);
+        descf(" R%d", t->idx);
         t->released = true;
         t->gate.unlock();
         dsched::label("tid_release_only");
       } else {
-        descf(" J%zu", idx);
+        descf(" J%d", t->idx);
         release_join(t);
         dsched::label("tid_join");
       }
@@ -469,7 +541,9 @@ struct BoxWorld {
   using VV = babylon::VersionedValue<uint32_t>;
   Box box;
   std::vector<Dep> deps;
-  std::atomic<uint32_t> published{0};
+  // ids travel between threads through a release/acquire channel (one flag per deposit), as the user
+  // of the box must arrange: take() itself is a relaxed operation by design
+  std::unique_ptr<std::atomic<uint32_t>[]> published{new std::atomic<uint32_t>[4096]()};
   std::vector<VV> stale;
   bool occupied[MAXS] = {};
   Tracked<uint64_t> res[MAXS];
@@ -477,7 +551,9 @@ struct BoxWorld {
   uint64_t hist = 0;
   int taking[4096] = {};  // per deposit: takes in flight
 
-  BoxWorld() { deps.reserve(4096); }
+  BoxWorld() {
+    deps.reserve(4096);
+  }
 
   size_t emplace(bool quiet, int me) {
     uint64_t x = next_x++;
@@ -494,7 +570,7 @@ struct BoxWorld {
     if (deps.size() >= 4000) dsched::discard("too many deposits");
     deps.push_back(Dep{id, x});
     hist = hist * 1000003 + id.value;
-    published.store((uint32_t)deps.size(), std::memory_order_release);
+    published[deps.size() - 1].store(1, std::memory_order_release);
     return deps.size() - 1;
   }
   void on_win(size_t di, Item* p, bool quiet, int me) {
@@ -597,19 +673,22 @@ void run_box(Chooser& c) {
       }
       descf("]");
     }
-    std::vector<std::thread> ths;
+    Pool pool(nthreads);
     for (int t = 0; t < nthreads; t++) {
-      ths.emplace_back([&, t] {
+      pool.start(t, [&, t] {
         int me = t + 1;
         for (const COp& op : plans[(size_t)t]) {
           switch (op.kind) {
             case C_TAKE:
             case C_TAKE_RELEASED: {
-              // ids travel between threads through a release/acquire channel, as the user of the box must arrange
-              uint32_t vis = B.published.load(std::memory_order_acquire);
+              size_t vis = B.deps.size();
               if (vis == 0) break;
-              // arg counts back from the newest visible deposit
+              // arg counts back from the newest deposit
               size_t di = vis - 1 - (op.arg % (vis < 3 ? vis : 3));
+              if (!B.published[di].load(std::memory_order_acquire)) {
+                dsched::label("box_id_not_yet_visible");
+                break;
+              }
               bool got = B.take(di, op.kind == C_TAKE_RELEASED, false, me);
               dsched::label(got ? "box_take_won" : "box_take_lost");
               break;
@@ -633,7 +712,7 @@ void run_box(Chooser& c) {
         }
       });
     }
-    for (auto& th : ths) th.join();
+    for (int t = 0; t < nthreads; t++) pool.join(t);
 
     // quiescent: every deposit is obtained exactly once, every taken id is dead for good
     bool contended = false;
@@ -664,7 +743,6 @@ void run_box(Chooser& c) {
 void run_case(Chooser& c) {
   World world;
   W = &world;
-  g_desc.clear();
   int scen = (int)c.below(8);
   if (scen <= 1) {
     dsched::label("scen_alloc16");
@@ -684,7 +762,6 @@ void run_case(Chooser& c) {
     dsched::label("scen_deposit_box");
     run_box(c);
   }
-  dsched::describe("%s", g_desc.c_str());
   if (world.overlapped) dsched::label("ops_overlapped");
   if (world.overlapped && dsched::stat_switches() >= 2) dsched::nontrivial();
   W = nullptr;
